@@ -82,6 +82,9 @@ def body_E1(ctx):
             found = LoggedAction.of_type(messages, ty)
         except Exception as e:
             ctx.fail("LoggedAction.of_type(%r) raised %r (program %s)" % (ty, e, it.render()))
+        if ty == I.TYPED_ACTION.action_type:
+            by_object = LoggedAction.of_type(messages, I.TYPED_ACTION)
+            ctx.check([e.startMessage for e in by_object] == [e.startMessage for e in found], "of_type(ActionType object) differs from of_type(str)")
         ctx.check(len(found) == len(starts), "of_type(%s) returned %d entries, the program ran %d actions of that type (program %s)", ty, len(found), len(starts), it.render())
         if len(starts) >= 2:
             interesting = True
@@ -149,6 +152,8 @@ def body_E1(ctx):
     for mt in mtypes:
         exp = [m for m in messages if m.get("message_type") == mt]
         got = LoggedMessage.of_type(messages, mt)
+        if mt == I.TYPED_MESSAGE.message_type:
+            ctx.check([g.message for g in LoggedMessage.of_type(messages, I.TYPED_MESSAGE)] == [g.message for g in got], "of_type(MessageType object) differs from of_type(str)")
         ctx.check([g.message for g in got] == exp and all(g.message is e for g, e in zip(got, exp)), "LoggedMessage.of_type(%s) wrong", mt)
         tc = _TC()
         try:
@@ -222,7 +227,7 @@ def L1(A: List[int], L: List[int]) -> bool:
 
 def _shards(tier):
     out = []
-    cfgs = [{"N": 4, "D": 3, "handoff": 1}, {"N": 3, "D": 3, "types": 2, "handoff": 0}, {"N": 3, "D": 3, "handoff": 1, "deferred": 1, "same_side": 1}] if tier == "quick" else [{"N": 5, "D": 4, "handoff": 1}, {"N": 4, "D": 3, "types": 2, "handoff": 1}, {"N": 4, "D": 3, "handoff": 1, "deferred": 1, "same_side": 1}]
+    cfgs = [{"N": 4, "D": 3, "handoff": 1}, {"N": 3, "D": 3, "types": 2, "handoff": 0}, {"N": 3, "D": 3, "handoff": 1, "deferred": 1, "same_side": 1}, {"N": 3, "D": 3, "handoff": 0, "open": 4, "msg": 2}] if tier == "quick" else [{"N": 5, "D": 4, "handoff": 1}, {"N": 4, "D": 3, "types": 2, "handoff": 1}, {"N": 4, "D": 3, "handoff": 1, "deferred": 1, "same_side": 1}]
     for base in cfgs:
         out += [dict(base, prefix=q) for q in enumerate_prefixes(body_E1, "X", {}, base, 3)]
     return out
